@@ -446,8 +446,9 @@ def run_rekey_window(ctx, rng, desc, control=False):
 
         def fire():
             for (t, pk, body) in desc["probes"]:
+                m0 = sess.att.mark()  # sequence numbers restart at NEWKEYS under strict kex: match by position too
                 seq, st = sess.step(t, body)
-                sent.append((t, seq))
+                sent.append((t, seq, m0))
                 if st == "dead":
                     break
 
@@ -476,8 +477,10 @@ def run_rekey_window(ctx, rng, desc, control=False):
             return
         state = sess.wait_rekey(mark)
         read_any = False
-        for (t, seq) in sent:
-            e = sess.victim_read_seq(seq, since_n) if seq is not None else None
+        for (t, seq, m0) in sent:
+            e = sess.victim_read_seq(seq, m0) if seq is not None else None
+            if e is not None and e["type"] != t:
+                e = None
             if e is None:
                 ctx.count(prefix + "rekey_probe_not_read_by_victim")
                 continue
